@@ -316,7 +316,7 @@ func (u *Upstream) run(isResume bool) error {
 						DataPointGroups: dpg,
 					},
 				}
-				resultCh := make(chan *message.UpstreamChunkResult)
+				resultCh := make(chan *message.UpstreamChunkResult, 1)
 				u.mu.Lock()
 				u.upstreamChunkResultChs[chunk.StreamChunk.SequenceNumber] = resultCh
 				u.mu.Unlock()
@@ -485,7 +485,7 @@ func (u *Upstream) flush(ctx context.Context) error {
 		return err
 	}
 
-	resultCh := make(chan *message.UpstreamChunkResult)
+	resultCh := make(chan *message.UpstreamChunkResult, 1)
 	u.upstreamChunkResultChs[msgChunk.StreamChunk.SequenceNumber] = resultCh
 	go u.sendChunkAndWaitAck(ctx, msgChunk, resultCh)
 	return nil
@@ -669,17 +669,19 @@ func (u *Upstream) processDataIDAliases(aliases map[uint32]*message.DataID) {
 
 func (u *Upstream) processResult(ctx context.Context, result *message.UpstreamChunkResult) error {
 	u.mu.Lock()
-	defer u.mu.Unlock()
 	ch, ok := u.upstreamChunkResultChs[result.SequenceNumber]
 	if !ok {
+		u.mu.Unlock()
 		return nil
 	}
+	delete(u.upstreamChunkResultChs, result.SequenceNumber)
+	u.mu.Unlock()
+	// 待機側がAckタイムアウトで離脱済みの場合にロックを保持したまま停止しないよう、ロックの外で通知します。
 	select {
 	case <-ctx.Done():
 	case <-u.ctx.Done():
 	case ch <- result:
 	}
-	delete(u.upstreamChunkResultChs, result.SequenceNumber)
 	return nil
 }
 
